@@ -453,10 +453,11 @@ def seed_of(argv):
 
 # ------------------------------------------------------------------ whole runs of cnfshuffle
 class ShuffleRunCase(Case):
-    __slots__ = ("_argv", "_text", "_req", "_ans", "_state")
+    __slots__ = ("_argv", "_text", "_req", "_ans", "_state", "_files")
 
-    def __init__(self, argv, text, cls):
+    def __init__(self, argv, text, cls, files=None):
         self._argv, self._text = list(argv), text
+        self._files = files
         self._req = None
         self._ans = None
         self._state = {}
@@ -472,6 +473,14 @@ class ShuffleRunCase(Case):
         stdin = io.StringIO(self._text)
         stdin.name = "<stdin>"
         sys.stdin = stdin
+        tmp = oldcwd = None
+        if self._files is not None:
+            tmp = tempfile.mkdtemp(prefix="c07sh")
+            for k, v in self._files.items():
+                with open(os.path.join(tmp, k), "w", encoding="utf-8", newline="") as f:
+                    f.write(v)
+            oldcwd = os.getcwd()
+            os.chdir(tmp)
         try:
             with Recording() as rec:
                 rec.allow_shuffle = True
@@ -483,8 +492,20 @@ class ShuffleRunCase(Case):
                     out = ("E", "cliError")
                 except Exception as e:  # noqa
                     out = ("E", "crash:" + type(e).__name__)
+            rec.written = []
+            if tmp is not None:
+                import gc
+                gc.collect()        # argparse.FileType handles are closed by the collector
+                for k in sorted(os.listdir(tmp)):
+                    with open(os.path.join(tmp, k), encoding="utf-8", newline="") as f:
+                        txt = f.read()
+                    if self._files.get(k) != txt:
+                        rec.written.append((k, txt))
         finally:
             sys.stdin = old
+            if tmp is not None:
+                os.chdir(oldcwd)
+                shutil.rmtree(tmp, ignore_errors=True)
         return out, rec
 
     def _prepare(self):
@@ -503,15 +524,18 @@ class ShuffleRunCase(Case):
                 bad = True
                 continue
             (rs if seeds else r0).append(d)
-        self._state.update(out=out, seeds=seeds, bad=bad, unknown=list(rec.unknown), n=len(r0) + len(rs))
+        self._state.update(out=out, seeds=seeds, bad=bad, unknown=list(rec.unknown), n=len(r0) + len(rs), written=rec.written)
         base = [(a, b) for a, b in cnfgen.CNF().header.items() if a != "description"]
         hdr = [len(base)]
         for a, b in base:
             hdr += enc_str(a) + enc_str(b)
         self._req = req("shufflerun", enc_argv(self._argv), enc_str(self._text), enc_str("<stdin>"), hdr,
-                        enc_stream(r0), enc_stream(rs))
+                        enc_files(sorted((self._files or {}).items())), enc_stream(r0), enc_stream(rs))
         if out[0] == "text":
-            self._ans = ok("T {} ".format(self._state["n"]) + " ".join(str(ord(c)) for c in out[1]))
+            wr = " W {}".format(len(rec.written))
+            for k, v in rec.written:
+                wr += " " + " ".join(str(x) for x in enc_str(k) + enc_str(v))
+            self._ans = ok("T {} ".format(self._state["n"]) + " ".join(str(ord(c)) for c in out[1]) + wr)
         else:
             self._ans = ok("E " + out[1])
 
@@ -540,7 +564,9 @@ class ShuffleRunCase(Case):
         if seed is None or seed == "":
             return None        # no seed (an empty token is not an integer seed): nothing is promised
         for pre in (977, 31):
-            out2, _ = self._run(pre)
+            out2, rec2 = self._run(pre)
+            if out2 == st["out"] and rec2.written != st["written"]:
+                return {"argv": self._argv, "output_files_differ_between_generator_states": [st["written"][:1], rec2.written[:1]]}
             if out2 != st["out"]:
                 a = st["out"][1].split("\n") if st["out"][0] == "text" else [st["out"][1]]
                 b = out2[1].split("\n") if out2[0] == "text" else [out2[1]]
@@ -572,6 +598,15 @@ def shufflerun_cases(ctx):
             if j % 3 == 1:
                 argv = ["cnfshuffle"] + o + (["--seed", sd] if sd is not None else [])
             out.append(ShuffleRunCase(argv, t, cls="seed" if sd not in (None, "") else ("emptyseed" if sd == "" else "noseed")))
+    # -i / -o: the input file is part of the environment, the output file part of the result
+    files = {"in.cnf": SHUFFLE_TEXT, "bad.cnf": "p cnf 1 1\n2 0\n", "crlf.cnf": "p cnf 2 2\r\n1 -2 0\r\n2 0\r\n"}
+    for k, (io_opts, sd) in enumerate([(["-i", "in.cnf"], "3"), (["-i", "in.cnf", "-o", "out.cnf"], "0"), (["-o", "out.cnf"], "-7"),
+                                       (["--input", "crlf.cnf", "--output", "o2"], "11"), (["-i", "missing.cnf"], "1"),
+                                       (["-i", "bad.cnf", "-o", "out.cnf"], "2"), (["-i", "-", "-o", "-"], "4"),
+                                       (["-i", "in.cnf", "-o", "out.cnf"], None), (["-o", "out.cnf", "-q", "-i", "in.cnf"], "5")]):
+        o = optsets[k % len(optsets)]
+        argv = ["cnfshuffle"] + (["--seed", sd] if sd is not None else []) + o + io_opts
+        out.append(ShuffleRunCase(argv, texts[k % 3], cls="files:" + ("seed" if sd else "noseed"), files=files))
     return out
 
 
